@@ -3,20 +3,32 @@ from checks.numlib import *
 from checks.syntaxlib import run_syntax
 
 META = {
-    "text": "Spec.run (Lean) is the definition of what the source text says; theorems: rejected_not_run, cache_transparent(_seq) for every cache size and "
-            "eviction policy; the compiler+VM are tied to Spec by an end-to-end differential on generated well- and ill-typed programs (postings, "
-            "metadata, error class, final balances) and each compiled program is executed twice to detect state left in it. compile_correct (bytecode "
-            "level) is the planned next stage.",
-    "note": "PARTIAL: the bytecode-level compile_correct theorem and the concurrency clause (shared *Program under concurrent use) are not proved; the digest "
-            "injectivity is a hypothesis of cache_transparent. Trusted: Lean kernel; Spec; harness pretty-printer instead of the ANTLR parser.",
-    "technique": "Lean 4 proof (cache refinement, rejection) + differential correspondence Spec vs compiler+VM",
+    "text": "Spec.run (Lean) is the definition of what the source text says. Bytecode level (model A2): Compile.compile reproduces the single pass of the Go "
+            "compiler (resource table with constant de-duplication, APUSH/BUMP choreography, NeededBalances, Sources, every static rejection) and VM.run the "
+            "stack machine with every Go panic site as an explicit outcome. Proved: compile_rejects (compile refuses exactly when the static rules `check` do, "
+            "both directions, the two size limits being outcomes of their own), compile_accepts_checked, compile_static_rejects, compile_rejects_unchecked, "
+            "compile_deterministic, compile_correct_partial (for the fragment: sends whose source is any nesting of account [with overdraft clauses, @world] | "
+            "max | in-order and whose destination is an account, save, set_tx_meta, set_account_meta, print, fail: VM.run of the compiled program = Spec's "
+            "statement semantics evalStmts + metadata merge, by frame lemmas per construct), opcode_table_matches / type_table_matches (decide, against tables "
+            "regenerated from the Go sources on every run), rejected_not_run, cache_transparent(_seq) for every cache size and eviction policy. Ties: bytecode "
+            "equality (instruction bytes, typed resources, needed balances, sources identical to the real compiler's on every generated program, same "
+            "compile_error verdict), VM model vs real VM, end-to-end Spec vs compiler+VM.",
+    "note": "PARTIAL: compile_correct is proved for the fragment above and from the resolved state on; source/destination allotments, ordered destinations "
+            "(max/remaining/kept) and the equivalence of the two resolution stages (Spec.prepare/initBal vs SetVarsFromJSON/ResolveResources/ResolveBalances) rest "
+            "on the differentials; so does the concurrency clause (shared *Program under concurrent use); the digest injectivity is a hypothesis of "
+            "cache_transparent. Trusted: Lean kernel; Spec; harness pretty-printer instead of the ANTLR parser.",
+    "technique": "Lean 4 proof (compiler model, rejection equivalence, frame lemmas / simulation VM vs Spec, cache refinement) + differential correspondence "
+                 "(bytecode equality, VM model vs VM, Spec vs compiler+VM) + regenerated opcode/type tables",
     "design_ref": "5 (C08), 3.2, 3.3",
 }
 
 
 def run(ctx):
-    ctx.cov["trusted_base"] = TRUSTED + ["digest injectivity on the scripts in use is a hypothesis of cache_transparent, not an axiom"]
-    ctx.cov["partial"] = "compile_correct at bytecode level not yet proved; concurrency of a shared cached program only observed"
+    ctx.cov["trusted_base"] = TRUSTED + TRUSTED_A2 + ["digest injectivity on the scripts in use is a hypothesis of cache_transparent, not an axiom"]
+    ctx.cov["partial"] = ("compile_correct proved for the fragment {send from account|overdraft|max|in-order sources to an account, save, set_tx_meta, "
+                           "set_account_meta, print, fail} from the resolved state on; allotments, ordered destinations, the resolution-stage "
+                           "equivalence and the concurrency of a shared cached program are covered by the differentials only")
+    regen_opcodes(ctx)
     ctx.l1()
     if run_syntax(ctx):  # front end (lexer+parser) on script texts; True = it served a --replay of one of its own cases
         return
@@ -24,6 +36,10 @@ def run(ctx):
     if r is None:
         return
     inputs, impl, model = r
+    # ---- model A2: bytecode equality + VM model vs real VM, on the same inputs
+    bc = run_bytecode(ctx, inputs)
+    if bc is not None:
+        compare_bytecode(ctx, inputs, bc[0], bc[1])
     seen, nontrivial = set(), 0
     for inp in inputs:
         a, b = impl.get(inp["id"], {}), model.get(inp["id"], {})
